@@ -43,6 +43,13 @@ type Result struct {
 // IsWorker reports whether this process was started as a pool worker.
 func IsWorker() bool { return os.Getenv("SEMAVERIF_WORKER") != "" }
 
+var recycle bool
+
+// RequestRecycle asks the parent (from inside a handler) to replace this
+// worker process after the current job: the way to get rid of goroutines the
+// code under test leaked.
+func RequestRecycle() { recycle = true }
+
 // ServeWorker is the worker main loop: read one job per line from stdin,
 // answer on stdout.
 func ServeWorker(h Handler) {
@@ -54,10 +61,12 @@ func ServeWorker(h Handler) {
 			return
 		}
 		var env struct {
-			Res json.RawMessage `json:"res,omitempty"`
-			Err string          `json:"err,omitempty"`
+			Res     json.RawMessage `json:"res,omitempty"`
+			Err     string          `json:"err,omitempty"`
+			Recycle bool            `json:"recycle,omitempty"`
 		}
 		res, herr := h(json.RawMessage(line))
+		env.Recycle = recycle
 		if herr != nil {
 			env.Err = herr.Error()
 		}
@@ -67,6 +76,9 @@ func ServeWorker(h Handler) {
 		out.Write(b)
 		out.WriteByte('\n')
 		out.Flush()
+		if recycle {
+			os.Exit(0)
+		}
 	}
 }
 
@@ -95,11 +107,12 @@ type Options struct {
 }
 
 type worker struct {
-	cmd    *exec.Cmd
-	stdin  io.WriteCloser
-	stdout *bufio.Reader
-	stderr *tailBuf
-	cpus   string
+	cmd      *exec.Cmd
+	stdin    io.WriteCloser
+	stdout   *bufio.Reader
+	stderr   *tailBuf
+	cpus     string
+	recycled bool
 }
 
 type tailBuf struct {
@@ -239,6 +252,7 @@ func (w *worker) kill() {
 }
 
 func (w *worker) do(job json.RawMessage, timeout time.Duration) (out json.RawMessage, herr string, crashed, hung bool) {
+	w.recycled = false
 	line := bytes.ReplaceAll(job, []byte("\n"), []byte(" "))
 	if _, err := w.stdin.Write(append(line, '\n')); err != nil {
 		return nil, "", true, false
@@ -268,12 +282,14 @@ func (w *worker) do(job json.RawMessage, timeout time.Duration) (out json.RawMes
 			return nil, "", true, false
 		}
 		var env struct {
-			Res json.RawMessage `json:"res"`
-			Err string          `json:"err"`
+			Res     json.RawMessage `json:"res"`
+			Err     string          `json:"err"`
+			Recycle bool            `json:"recycle"`
 		}
 		if err := json.Unmarshal(r.b, &env); err != nil {
 			return nil, "bad worker answer: " + err.Error(), false, false
 		}
+		w.recycled = env.Recycle
 		return env.Res, env.Err, false, false
 	case <-time.After(timeout):
 		// ask for a goroutine dump before killing, it explains the hang
@@ -333,6 +349,9 @@ func (p *Pool) Run(jobs <-chan json.RawMessage, onResult func(Result)) error {
 				if crashed || hung {
 					w.kill()
 					res.Stderr = w.stderr.String()
+					w = nil
+				} else if w.recycled {
+					w.kill()
 					w = nil
 				}
 				mu.Lock()
